@@ -139,6 +139,23 @@ func (c *canonizer) node(n ast.Node) {
 			}
 			c.b.WriteString("SwitchStmt (")
 			return true
+		case *ast.RangeStmt:
+			// `for i := range s` with s := make([]T, n) is `for i := 0; i < n; i++`
+			if x.Value == nil && x.Key != nil && x.Tok == token.DEFINE {
+				if n := c.madeLen(x.X); n != nil {
+					if key, ok := x.Key.(*ast.Ident); ok {
+						c.node(&ast.ForStmt{
+							Init: &ast.AssignStmt{Lhs: []ast.Expr{key}, Tok: token.DEFINE, Rhs: []ast.Expr{&ast.BasicLit{Kind: token.INT, Value: "0"}}},
+							Cond: &ast.BinaryExpr{X: key, Op: token.LSS, Y: n},
+							Post: &ast.IncDecStmt{X: key, Tok: token.INC},
+							Body: x.Body,
+						})
+						return false
+					}
+				}
+			}
+			c.b.WriteString("RangeStmt (")
+			return true
 		case *ast.ParenExpr:
 			// parentheses carry no meaning of their own
 			c.node(x.X)
@@ -273,6 +290,22 @@ func stripNot(e ast.Expr) (ast.Expr, bool) {
 	neg := false
 	for {
 		e = ast.Unparen(e)
+		// `x == false`, `x != true` are negations; `x == true`, `x != false` are x
+		if b, ok := e.(*ast.BinaryExpr); ok && (b.Op == token.EQL || b.Op == token.NEQ) {
+			lit, other := "", ast.Expr(nil)
+			if id, ok := ast.Unparen(b.Y).(*ast.Ident); ok && (id.Name == "true" || id.Name == "false") && id.Obj == nil {
+				lit, other = id.Name, b.X
+			} else if id, ok := ast.Unparen(b.X).(*ast.Ident); ok && (id.Name == "true" || id.Name == "false") && id.Obj == nil {
+				lit, other = id.Name, b.Y
+			}
+			if lit != "" {
+				if (lit == "false") == (b.Op == token.EQL) {
+					neg = !neg
+				}
+				e = other
+				continue
+			}
+		}
 		u, ok := e.(*ast.UnaryExpr)
 		if !ok || u.Op != token.NOT {
 			return e, neg
@@ -332,4 +365,40 @@ func orderedClauses(p *packages.Package, body *ast.BlockStmt, tagged bool) []ast
 		res[i] = o.s
 	}
 	return res
+}
+
+// madeLen: e is a local slice variable defined by make([]T, n) in the scope
+// under comparison; returns n.
+func (c *canonizer) madeLen(e ast.Expr) ast.Expr {
+	id, ok := ast.Unparen(e).(*ast.Ident)
+	if !ok {
+		return nil
+	}
+	o := c.p.TypesInfo.Uses[id]
+	if o == nil || !c.local(o) {
+		return nil
+	}
+	var n ast.Expr
+	defs := 0
+	ast.Inspect(c.scope, func(m ast.Node) bool {
+		as, ok := m.(*ast.AssignStmt)
+		if !ok {
+			return true
+		}
+		for i, l := range as.Lhs {
+			if lid, ok := l.(*ast.Ident); ok && c.p.TypesInfo.ObjectOf(lid) == o && i < len(as.Rhs) {
+				defs++
+				if call, ok := ast.Unparen(as.Rhs[i]).(*ast.CallExpr); ok && len(call.Args) == 2 {
+					if fid, ok := call.Fun.(*ast.Ident); ok && fid.Name == "make" {
+						n = call.Args[1]
+					}
+				}
+			}
+		}
+		return true
+	})
+	if defs != 1 {
+		return nil
+	}
+	return n
 }
